@@ -63,6 +63,10 @@ def sctp_packet(vtag, chunks, bad_crc=False, sport=5000, dport=5000):
     return head + struct.pack("<L", c) + body
 
 
+def _sctp_packet_at(vtag, chunks, ports):
+    return sctp_packet(vtag, chunks, sport=ports[0], dport=ports[1])
+
+
 def param(ptype, value, length=None):
     return pad4(struct.pack("!HH", ptype, len(value) + 4 if length is None else length) + value)
 
@@ -76,10 +80,13 @@ def canon_params(params):
     return out
 
 
-def wellformed_sctp(r, vt):
+def wellformed_sctp(r, vt, ports=(5000, 5000)):
     """A canonical, well-formed single-chunk SCTP packet of a seeded type with seeded field values:
     what any conforming peer may send (C08 wire monitor: it must parse and re-serialise to the same bytes)."""
     rb = lambda n: bytes(r.randrange(256) for _ in range(n))   # noqa: E731
+
+    def sctp_packet(vtag, chunks):      # every packet of this call carries `ports`
+        return _sctp_packet_at(vtag, chunks, ports)
 
     def params():
         n = r.choice([0, 1, 1, 2, 3, 4])
@@ -762,7 +769,10 @@ class HostileWorld(MediaBase):
     def c08_monitor(self, k):
         """C08 wire monitor on a well-formed packet a conforming peer may put on the wire: the victim's parser must
         read it back to the same bytes (only in C08 runs; the packet is judged, not injected)."""
-        pkt = wellformed_sctp(self.rng(k ^ 0xC08), self.vtag())
+        r = self.rng(k ^ 0xC08)
+        # (any port pair: the checksum covers the ports, whatever the association at hand uses)
+        ports = r.choice([(5000, 5000), (5000, 5000), (5001, 5002), (r.randrange(1, 65536), r.randrange(1, 65536)), (0, 65535)])
+        pkt = wellformed_sctp(r, self.vtag(), ports=ports)
         m = sctpmod
         self.probes["wellformed_roundtrips"] += 1
         try:
